@@ -92,7 +92,8 @@ ExpandClauses(e) ==
        \cup (IF e.raised = "" /\ post.store # (pre.store \ refs) \cup fresh THEN {"registry"} ELSE {})
        \cup (IF e.raised = "" /\ ~NoSharing(post.kids) THEN {"copies-shared"} ELSE {})
        \cup (IF e.raised = "" /\ e.validBefore /\ ~e.validAfter THEN {"valid-tree-no-longer-validates"} ELSE {})
-       \cup (IF e.raised = "" /\ ~(\A n \in NodesOf(pre) : n \in fresh \/ n \in refs \/ SameNode(post, Load(e.probe), n)) THEN {"copy-not-independent"} ELSE {})
+       \cup (IF e.raised = "" /\ ~(\A n \in NodesOf(pre) : n \in fresh \/ n \in refs \/ (SameNode(post, Load(e.probe), n) /\ (n \in tree => post.kids[n] = Load(e.probe).kids[n])))
+             THEN {"copy-not-independent"} ELSE {})
 
 Clauses(e) == IF e.op = "prune" THEN PruneClauses(e) ELSE ExpandClauses(e)
 Judge(k) == LET c == Clauses(Events[k]) IN
